@@ -397,6 +397,7 @@ static void run_c08(long i, vh_rng *r)
         static const char *wt[3] = { "affine", "inverse_linear", "piecewise_linear" }, *wp[3] = { "1.12 20", "1.08", "0.92 3000" }, *wp2[3] = { "0.9 -10", "0.95", "1.1 2500" };
         int w = (int)vh_below(r, 3); vd_cfg wc = t.cfg, oc = t.cfg; decoder_t *da, *dn, *dc; record ra, rc2;
         wc.warp_type = wt[w]; wc.warp_params = wp[w];
+        { vd_cfg pc = t.cfg; decoder_t *dp; pc.warp_type = wt[w]; pc.warp_params = wp2[w]; dp = vd_decoder_fresh(&pc); if (dp) decoder_free(dp); }   /* whatever earlier cases left in the process-wide warp state, the first decoder starts from other parameters */
         da = vd_decoder_fresh(&wc);
         if (da && run_target(da, &t, &ra, 0) == 0) {
             if (vh_chance(r, 0.5)) { oc.warp_type = wt[w]; oc.warp_params = wp2[w]; }     /* another decoder: unwarped, or warped differently */
